@@ -469,8 +469,13 @@ def translate(repo, gen_dir):
     import c16_fields
     classes = [(k, klass(k), list(CLS[k][3])) for k in CLS]
     recs, path = c16_fields.generate(classes, gen_dir)
+    # kernel expressions (delete conditions, field/group names, recursive call, decode condition, unit conversions, long-table
+    # layout) regenerated from the source; fail closed
+    from translate import c16_kernel
+    kern = c16_kernel.translate(repo, gen_dir, [(k, klass(k)) for k in H5_CLASSES])
     return [{"table": "Gen/C16_Fields.v", "classes": len(recs),
-             "written_keys": sum(len(r["written"]) for r in recs), "copied_attrs": sum(len(r["cp_ctor"]) + len(r["cp_post"]) for r in recs)}]
+             "written_keys": sum(len(r["written"]) for r in recs), "copied_attrs": sum(len(r["cp_ctor"]) + len(r["cp_post"]) for r in recs)},
+            kern]
 
 # ------------------------------------------------------------------------------------------------ generators
 LABELS = ["a", "B7", "ä", "ß", "日本", "😀x", "na/ïve", "", " sp ace", "Ω", "line-1", "Zz", "é", "x_y", "0", "t1"]
